@@ -3,6 +3,7 @@ mod case;
 mod driver;
 mod gen;
 mod minimise;
+mod miri;
 mod oracle;
 mod proc;
 mod sim;
